@@ -3,3 +3,8 @@ CLAIMED.update({
    text="Sound over-approximation for the generator process: every MIR body of the lalrpop crate is scanned; any evidence of hash-order iteration, mutable global state outside two RAII-scoped thread-locals, ambient source (time/random/env/pid/addresses) or unsorted directory walk is an undischarged obligation. No such source => equal bytes across runs, processes and batches.",
    note="trusted: rustc types; BTreeMap/Vec/petgraph/ena/bit-set iterate deterministically; string_cache::Atom orders by content; frozen exception tables (1 hash site, 5 configuration env reads) in rules/c20.py"),
 })
+CLAIMED.update({
+ "C28": dict(level="proof", design="§2 C28", technique="static analysis: symbolic (term-level) evaluation of the MIR of map_intern/map_location/map_token/map_error/From::from and comparison with the term prescribed by the ParseError ADT definition",
+   text="Clause decided: the three maps and From<E>. Every return path of map_intern is evaluated to a term over its inputs (closure inlined); one obligation per variant, field and tuple position. By parametricity in L,T,E term equality is a full functional specification. The Display strings are NOT decided.",
+   note="trusted: rustc MIR, the term evaluator (rules/symex.py); user closures are uninterpreted symbols"),
+})
